@@ -53,7 +53,7 @@ func (a *Operator) Run(input string) (string, error) {
 }
 
 func (a *Operator) assemble(assembleParser *parser.Parser, input *bytes.Buffer) (string, error) {
-	fileScanner := bufio.NewScanner(bytes.NewReader(input.Bytes()))
+	fileScanner := utils.NewLineScanner(bytes.NewReader(input.Bytes()))
 	fileScanner.Split(bufio.ScanLines)
 	processor = processors.NewAssemble(a.ctx)
 	processorStack.push(processor)
